@@ -166,6 +166,9 @@ func (e *Environment) SaveGlobals(to io.Writer, maxValueLen int) (int, error) {
 					return n, err
 				}
 				n++
+				if err := VerifPoint("save.binding", n); err != nil {
+					return n, err
+				}
 				continue
 			}
 			// Anonymous function are like other variables.
@@ -182,6 +185,9 @@ func (e *Environment) SaveGlobals(to io.Writer, maxValueLen int) (int, error) {
 			return n, err
 		}
 		n++
+		if err := VerifPoint("save.binding", n); err != nil {
+			return n, err
+		}
 	}
 	return n, nil
 }
